@@ -169,6 +169,7 @@ class Base(Harness):
     W = 44
     max_paths = 400000
     max_decisions = 4000
+    prove_int_first = True      # obligations are interval/linear reasoning: decided as integer arithmetic
 
 
 def result_view(r):
